@@ -39,11 +39,6 @@ func (p plan) String() string {
 	return fmt.Sprintf("kill-before-effect=[%s] mode=%s", strings.Join(s, ","), p.Mode)
 }
 
-type outcome struct {
-	c          *caseRun
-	incomplete string // non-empty: no verdict (reason)
-}
-
 // runPlan executes the script from scratch with the given kills: incarnation i is
 // killed in front of its Kills[i].At-th effect, the next incarnation starts on the
 // crash image; the last incarnation runs to the end of the script.
@@ -719,17 +714,21 @@ func loadFinal(root string) ([]walItem, error) {
 
 func TestC13(t *testing.T) {
 	r := lib.Start("C13", "fault_enumeration")
-	n := r.N(48, 1600)
-	if _, err := os.MkdirTemp("", "c13-probe-"); err != nil {
+	n := r.N(48, 900)
+	if d, err := os.MkdirTemp("", "c13-probe-"); err != nil {
 		t.Fatalf("no scratch space: %v", err)
+	} else {
+		os.RemoveAll(d)
 	}
 	r.Cases(n, 0, func(idx int) { runCase(t, r, idx) })
 	r.Assume("the harness plays the three peers, the commit listener (commit completed = OnCommit returned) and picks the restart height = first height + completed commits, as consensus.Init does from the chain height")
 	r.Assume("a kill is simulated inside the process: the effect wrapper panics before performing the effect, Close of the dead store is a no-op, the log directory is copied at that instant; nothing is written to the log files outside Flush, so the copy is what a SIGKILL would leave (power-loss reordering of completed fsyncs is not modelled; a torn last batch is)")
+	r.Assume("the block fetcher (sync on a future precommit quorum) is not part of the harness: a third identical non-nil precommit for a height the node has not reached is withheld by the peers")
 	r.Assume("state-machine pass-through wrapper only observes (ProcessWAL calls, returned actions); Validators/Application are harness objects: 4 validators of power 1")
 	r.Finish("case = generated peer script (1-3 heights, failing rounds then a deciding round, early/duplicate/hostile messages) x role {proposer, non-proposer} x application {f(h,r), fresh value per call} x family {1 h timeouts, per-round expiring timeout}; "+
 		"dry run numbers the driver's effects (log append/flush/prune, each broadcast, timeout scheduling, commit callback); for EVERY effect k the run is repeated and killed in front of effect k (plus torn-last-batch images for flushes and sampled second kills inside recovery), "+
-		"a new driver + state machine start on the crash image and the script continues (same inputs re-delivered / a different continuation). Oracles: (a) no broadcast/commit while a logged input is unflushed, "+
+		"a new driver + state machine start on the crash image and the script continues (same inputs re-delivered / a different continuation); also graceful stop+restart at input boundaries. Oracles: (a) no broadcast/commit while a logged input is unflushed, "+
+		"and the input whose processing produced a broadcast/commit is in the flushed log at that moment, "+
 		"(b) no two different prevote/precommit ids for one (h,r) across incarnations, (c) log content after restart == entries of flushes that had returned, replay feeds exactly those of uncommitted heights, completed commits contiguous, "+
 		"(d) deterministic configurations: distinct broadcasts, commits, height and final log equal a never-crashed twin; distinct = (script, kill plan)", 100)
 }
